@@ -63,7 +63,7 @@ func runShard(dir string, shard int, jobs []job, hostEnv []string, res map[int]*
 		ctx, cancel := context.WithTimeout(context.Background(), time.Duration(20+len(jobs)/4)*time.Second+2*time.Minute)
 		cmd := exec.CommandContext(ctx, self, "-c13child="+jf, rf)
 		cmd.Env = hostEnv
-		cmd.Stdin = strings.NewReader(strings.Repeat(hostStdinText, 50))
+		cmd.Stdin = strings.NewReader(strings.Repeat(hostStdinText, 400))
 		var so, se bytes.Buffer
 		cmd.Stdout, cmd.Stderr = &so, &se
 		runErr := cmd.Run()
